@@ -29,7 +29,7 @@ REQUIRED_CLASSES = [
     "interval_grid:edge_inside_interval",
     "interval_grid:empty_result",
     "interval_grid:degenerate_window",
-    "interval_random:empty_result",
+    "interval_random:empty_result", "interval_random:after_in_place_edit", "interval_random:coinciding_points",
     "textgrid_random:empty_result_some_tier",
 ]
 
@@ -131,9 +131,15 @@ def run_tier_case(case):
     spec = case["tier"]
     a, b, mode, rebase = case["a"], case["b"], case["mode"], case["rebase"]
     tier = mk_tier(spec)
+    from vlib import models as _m
+    spec = _m.apply_pre(tier, spec, case.get("pre"))
     before = snap_tier(tier)
     is_int = spec["type"] == "interval"
     classes = classify(spec["entries"], a, b, is_int)
+    if case.get("pre"):
+        classes.append("after_in_place_edit")
+    if not is_int and len({e[0] for e in spec["entries"]}) < len(spec["entries"]):
+        classes.append("coinciding_points")
     try:
         with quiet():
             res = tier.crop(a, b, mode, rebase)
@@ -286,9 +292,10 @@ def window_for(draw, entries_list, style, maxT):
 @st.composite
 def tier_cases(draw):
     style = draw(gen.STYLES_ARITH)
-    spec = draw(st.one_of(gen.interval_tier(style=style, max_segments=7), gen.point_tier(style=style)))
+    spec = draw(st.one_of(gen.interval_tier(style=style, max_segments=7), gen.point_tier(style=style, dups=True)))
     a, b = draw(window_for([spec["entries"]], style, spec["maxT"]))
-    return {"tier": spec, "a": a, "b": b, "mode": draw(st.sampled_from(MODES)), "rebase": draw(st.booleans())}
+    pre = draw(st.one_of(st.none(), st.none(), st.fixed_dictionaries({"delete": st.one_of(st.none(), st.integers(0, 7))})))
+    return {"tier": spec, "a": a, "b": b, "mode": draw(st.sampled_from(MODES)), "rebase": draw(st.booleans()), "pre": pre}
 
 
 @st.composite
